@@ -55,6 +55,7 @@ PAIRS = [('fresh', 'setup-fresh')] + [(h, c) for h in ('configured', 'configured
 
 _server = None
 _states = {}
+FOLLOW_WIPE = False      # thorough: the follow-up commands end with setup --wipe
 
 
 def server():
@@ -154,6 +155,30 @@ def trial(job):
     res['outcome'] = tuple(sig)
     if bad:
         res['viol'] = ('C09:option-value:%s' % cmdname, '%s: after recovery %s' % (what, ', '.join(bad)))
+        return res
+    # "never bricks": the recovered directory is a build directory like any other - the next commands work on it and keep
+    # the values the recovery arrived at
+    follow = [['configure', bdir, '-Dc=b'], ['setup', '--reconfigure', bdir]] + ([['setup', '--wipe', bdir]] if FOLLOW_WIPE else [])
+    for fa in follow:
+        fr = mp.run_meson(fa, src, env=env)
+        fname = ' '.join(fa[:2])
+        if fr.unhandled:
+            m = re.search(r'(\w+(?:Error|Exception)): (.*)', fr.out[fr.out.find('Traceback'):] if 'Traceback' in fr.out else fr.out)
+            res['viol'] = ('C09:after-recovery:crashes:%s:%s' % (fa[0] + ('-wipe' if '--wipe' in fa else ''), m.group(1) if m else 'unknown'),
+                           '%s: the recovery succeeded, but the next `%s` dies with an unhandled exception: %s' % (what, fname, fr.out[-300:]))
+            return res
+        if fr.rc != 0:
+            res['viol'] = ('C09:after-recovery:fails:%s' % (fa[0] + ('-wipe' if '--wipe' in fa else '')),
+                           '%s: the recovery succeeded, but the next `%s` fails (rc %d): %s' % (what, fname, fr.rc, fr.out[-300:]))
+            return res
+        if fa[0] == 'setup':
+            later = observe(fr.out)
+            exp = dict(after, c='b')
+            diff = ['%s=%r (was %r)' % (o, later.get(o), exp.get(o)) for o in ('x', 'c', 'sub_wl', 'sub_y') if later.get(o) != exp.get(o)]
+            if diff:
+                res['viol'] = ('C09:after-recovery:option-value:%s' % ('wipe' if '--wipe' in fa else 'reconfigure'),
+                               '%s: after recovery, `configure -Dc=b` and `%s`: %s' % (what, ' '.join(fa[:2]), ', '.join(diff)))
+                return res
     return res
 
 
@@ -194,6 +219,8 @@ def main():
     projects = [('nolang', PROJECT, 'none')]
     if ck.thorough:
         projects.append(('c-ninja', CPROJECT, 'ninja'))
+        global FOLLOW_WIPE
+        FOLLOW_WIPE = True
     if ck.args.replay:
         d = json.load(open(ck.args.replay))
         proj = PROJECT if d['project'] == 'nolang' else CPROJECT
